@@ -20,6 +20,7 @@ def run(ctx):
     rule_registry(ctx, repo)
     rule_magic(ctx, repo)
     rule_address(ctx, repo)
+    rule_version_details(ctx, repo, eng)
     r = ctx.rule('C18.P1', 'chain parameters (magic) are read at call time, never bound at import', engine='OWN', floor=1)
     common.rule_call_time_params(r, repo, files={'bitcoin/messages.py', 'bitcoin/net.py'})
     ctx.not_decided += ['IP text conversion (inet_pton/inet_ntop)', 'payload values (follow from layouts + struct semantics)']
@@ -362,3 +363,69 @@ def rule_address(ctx, repo):
     init = repo.lookup_method(c, '__init__')
     st = [norm(n.value) for n in walk_no_nested(init.node) if isinstance(n, ast.Assign) and norm(n.targets[0]) == 'self.pchReserved']
     r.check(st == ['IPV4_COMPAT'], 'writer:prefix', init.site, 'pchReserved = IPV4_COMPAT', 'pchReserved is initialised to %s' % st)
+
+
+def rule_version_details(ctx, repo, eng):
+    """What the layout comparison does not see: the stream form of a frame, read sizes against their formats in the message
+    files, the legacy version fix-up, and what a version message reports for fields its version does not carry."""
+    import struct as _struct
+    r = ctx.rule('C18.V1', 'stream_serialize writes the frame; read sizes equal their formats; version 10300 is read as 300; fields a version message does not carry are None',
+                 engine='RULES', floor=8)
+    ms = repo.get_function('bitcoin.messages.MsgSerializable.stream_serialize')
+    if ms is not None:
+        f_ = ms.params[1] if len(ms.params) > 1 else 'f'
+        writes = [c for c in common.iter_calls(ms.node) if norm(c.func) == '%s.write' % f_ and len(c.args) == 1]
+        arg = common.resolved(ms, writes[0].args[0], repo) if len(writes) == 1 else None
+        if arg is not None and norm(arg) == 'self.to_bytes()':
+            r.ok('stream_serialize', ms.site, 'writes self.to_bytes()')
+        elif not writes:
+            r.violated('stream_serialize', ms.site, 'MsgSerializable.stream_serialize writes nothing: serialize() of every message is empty', sure=True)
+        else:
+            r.undecided('stream_serialize', ms.site, 'stream_serialize writes `%s`' % (norm(arg) if arg is not None else [norm(w) for w in writes]))
+    # read sizes
+    for fi, c, fmt, nv, why in common.unpack_read_sites(repo, eng, {'bitcoin/messages.py', 'bitcoin/net.py'}):
+        if why == 'not-ser_read' or fmt is None or not isinstance(nv, int):
+            continue
+        key = 'calcsize:%s:%s' % (fi.qualname.replace('bitcoin.', ''), norm(c)[:50])
+        try:
+            size = _struct.calcsize(fmt)
+        except _struct.error:
+            continue
+        r.check(size == nv, key, common.site_of(fi, c), 'reads %d bytes for %r' % (nv, fmt), 'reads %d bytes for format %r which needs %d: every well-formed message of this kind is refused' % (nv, fmt, size), sure=True)
+    md = repo.get_function('bitcoin.messages.msg_version.msg_deser')
+    if md is None:
+        return
+    # the legacy fix-up
+    fix = [n for n in walk_no_nested(md.node) if isinstance(n, ast.If) and re.match(r'^\w+\.nVersion == \d+$', norm(n.test))]
+    if len(fix) == 1 and len(fix[0].body) == 1 and isinstance(fix[0].body[0], ast.Assign) and isinstance(fix[0].body[0].value, ast.Constant):
+        a_, b_ = int(norm(fix[0].test).split('== ')[1]), fix[0].body[0].value.value
+        r.check((a_, b_) == (10300, 300), 'version:10300-is-300', common.site_of(md, fix[0]), '10300 -> 300', 'the legacy fix-up reads version %d as %r (protocol history: 10300 is 300)' % (a_, b_), sure=True)
+    elif fix:
+        r.undecided('version:10300-is-300', common.site_of(md, fix[0]), 'fix-up `%s` not recognised' % norm(fix[0])[:60])
+    # every field that a gate reads in one branch is None (fRelay: True) in the other
+    for n in walk_no_nested(md.node):
+        if isinstance(n, ast.If) and re.search(r'nVersion >= \d+', norm(n.test)) and n.orelse:
+            def fields(stmts, top):
+                out = {}
+                for s_ in stmts:
+                    if isinstance(s_, ast.Assign) and isinstance(s_.targets[0], ast.Attribute):
+                        out[s_.targets[0].attr] = s_.value
+                    elif isinstance(s_, ast.If) and not top:
+                        pass
+                return out
+            read = fields(n.body, True)
+            for s_ in n.body:
+                if isinstance(s_, ast.If):
+                    for k_, v_ in fields(s_.body, True).items():
+                        read.setdefault(k_, v_)
+            absent = fields(n.orelse, True)
+            for fld in sorted(read):
+                key = 'absent:%s@%s' % (fld, norm(n.test)[-12:])
+                if fld in absent:
+                    want_none = fld != 'fRelay'
+                    v_ = absent[fld]
+                    ok_ = isinstance(v_, ast.Constant) and ((v_.value is None) if want_none else (v_.value is True))
+                    r.check(ok_, key, common.site_of(md, n), 'reported as %s' % ('None' if want_none else 'True'),
+                            'a version message below the gate `%s` reports %s = %s' % (norm(n.test), fld, norm(v_)), sure=isinstance(v_, ast.Constant))
+                else:
+                    r.violated(key, common.site_of(md, n), 'a version message below the gate `%s` keeps the constructor\'s %s (a value that is not in the bytes) instead of reporting it absent' % (norm(n.test), fld), sure=True)
